@@ -310,7 +310,7 @@ def syn_confluent_spec(draw, allow_fail: bool = True) -> dict[str, Any]:
     return {"name": "synconf", "stages": [stage("a", [], [ok(emit("k_a"))]), p, stage("z", ["p"], [ok()])]}
 
 
-LOOP_SHAPES = ["self", "cycle2", "cycle3", "cycle4", "side", "fwd", "unknown", "two_routers", "mid_target", "nested"]
+LOOP_SHAPES = ["self", "cycle2", "cycle3", "cycle4", "side", "side_target", "fwd", "unknown", "two_routers", "mid_target", "nested"]
 
 
 def make_loop(shape: str, j: int, max_jumps: int | None, tail: bool = True) -> dict[str, Any]:
@@ -332,6 +332,11 @@ def make_loop(shape: str, j: int, max_jumps: int | None, tail: bool = True) -> d
     elif shape == "side":
         st_ = [stage("s", [], [ok(emit("k_s"))]), stage("a", ["s"], [ok(emit("k_a", "iter"))]),
                stage("side", ["s"], [ok(emit("k_side"))]), stage("r", ["a"], [jt("a")]), stage("j", ["r", "side"], [ok()])]
+        last = "j"
+    elif shape == "side_target":
+        # the side branch hangs off the jump target itself (so it is re-armed with it) and joins the loop exit
+        st_ = [stage("a", [], [ok(emit("k_a", "iter"))]), stage("b", ["a"], [ok()]), stage("s1", ["a"], [ok(emit("k_s1", "echo", src="k_a"))]),
+               stage("s2", ["s1"], [ok()]), stage("r", ["b"], [jt("a")]), stage("j", ["r", "s2"], [ok()])]
         last = "j"
     elif shape == "fwd":
         st_ = [stage("a", [], [jt("d")]), stage("b", ["a"], [ok()]), stage("c", ["a"], [ok()]), stage("d", ["b", "c"], [ok()])]
